@@ -557,6 +557,21 @@ impl Sim for SimB {
                 }
             }
             w.arm_script(sc, &st.algo);
+            if st.restore {
+                // restart from persisted state: what is written down and read back must be the state
+                // (the whole EngineState does not round-trip through JSON - some of its maps have
+                // structured keys - so the parts that do are persisted one by one)
+                match serde_json::to_string(&engine.state.connectivity).ok().and_then(|text| serde_json::from_str(&text).ok()) {
+                    Some(restored) => {
+                        engine.state.connectivity = restored;
+                        stats.fault("state_persisted_and_restored");
+                    }
+                    None => stats.probe("state_not_serialisable_as_json"),
+                }
+                if let Some(restored) = serde_json::to_string(&engine.state.trading).ok().and_then(|text| serde_json::from_str(&text).ok()) {
+                    engine.state.trading = restored;
+                }
+            }
             let before = engine.state.clone();
             let recv_before: Vec<usize> = (0..w.n_ex).map(|e| w.received_len(e)).collect();
             let (disc_before, algo_calls_before) = {
@@ -1253,7 +1268,7 @@ impl Sim for SimB {
     }
     fn fault_kinds(&self) -> Vec<&'static str> {
         match self.prop {
-            PropB::C14 => vec!["market_link_drop", "account_link_drop", "links_are_reconnecting_streams"],
+            PropB::C14 => vec!["market_link_drop", "account_link_drop", "links_are_reconnecting_streams", "state_persisted_and_restored"],
             PropB::C15 => vec!["interleaving"],
             _ => vec!["link_unhealthy", "link_closed", "link_healed", "risk_refusal", "link_missing", "unknown_exchange_index"],
         }
